@@ -520,7 +520,7 @@ func c13DrawDoc(rt *rapid.T, corp *gen.Corpus) c13Doc {
 	case 8:
 		if rapid.Bool().Draw(rt, "graphModel") {
 			// graph-profile models (tuple-to-userset targets resolve) carrying one of the recurring ids
-			gm := gen.GraphModel(rt, gen.GraphOpts{MultiThis: true, SmallModels: rapid.Bool().Draw(rt, "small"), SparseMeta: true})
+			gm := gen.GraphModel(rt, gen.GraphOpts{MultiThis: true, SmallModels: rapid.Bool().Draw(rt, "small"), SparseMeta: true, Names: true})
 			if rapid.Bool().Draw(rt, "scaled") {
 				gen.InflateGraph(rt, gm) // counts around 8, 16, 32 along one dimension (long restriction lists, many parents, ...)
 			}
@@ -537,6 +537,9 @@ func c13DrawDoc(rt *rapid.T, corp *gen.Corpus) c13Doc {
 		d := c13Doc{Kind: "merge", Text: ms.Files[0].Text}
 		for _, f := range ms.Files[1:] {
 			d.More = append(d.More, f.Text)
+		}
+		if rapid.IntRange(0, 9).Draw(rt, "bomFile") == 0 {
+			d.Text = "\ufeff" + d.Text // a byte order mark in front of the first file
 		}
 		if rapid.IntRange(0, 3).Draw(rt, "crlfFiles") == 0 {
 			// Windows line ends in every file (the caller's slice must come back as it went in)
